@@ -261,11 +261,54 @@ func main() {
 		}
 		b.List = out
 	}
+	// maps.Keys / maps.Values / maps.All (standard library and x/exp) hand out the
+	// runtime's iteration order too: route them through the chooser as well.
+	mapsFn := func(call *ast.CallExpr) string {
+		sel, ok := call.Fun.(*ast.SelectorExpr)
+		if !ok || len(call.Args) != 1 {
+			return ""
+		}
+		id, ok := sel.X.(*ast.Ident)
+		if !ok {
+			return ""
+		}
+		pn, ok := info.Uses[id].(*types.PkgName)
+		if !ok {
+			return ""
+		}
+		tv, ok := info.Types[call.Args[0]]
+		if !ok {
+			return ""
+		}
+		if !isMapType(tv.Type) {
+			return ""
+		}
+		switch pn.Imported().Path() + "." + sel.Sel.Name {
+		case "maps.Keys":
+			return "bklvKeys"
+		case "maps.Values":
+			return "bklvValues"
+		case "maps.All":
+			return "bklvAll"
+		case "golang.org/x/exp/maps.Keys":
+			return "bklvKeysSlice"
+		case "golang.org/x/exp/maps.Values":
+			return "bklvValuesSlice"
+		}
+		return ""
+	}
+	var keySites []string
 	instrExpr := func(n ast.Node) {
 		ast.Inspect(n, func(m ast.Node) bool {
 			if fl, ok := m.(*ast.FuncLit); ok {
 				instrBlock(fl.Body, true)
 				return false
+			}
+			if call, ok := m.(*ast.CallExpr); ok {
+				if fn := mapsFn(call); fn != "" {
+					keySites = append(keySites, fset.Position(call.Pos()).String())
+					call.Fun = ast.NewIdent(fn)
+				}
 			}
 			return true
 		})
@@ -287,7 +330,7 @@ func main() {
 			instrBlock(x.Body, true)
 		case *ast.RangeStmt:
 			if tv, ok := info.Types[x.X]; ok {
-				if _, isMap := tv.Type.Underlying().(*types.Map); isMap {
+				if isMapType(tv.Type) {
 					rangeSites = append(rangeSites, fset.Position(x.Pos()).String())
 					x.X = &ast.CallExpr{Fun: ast.NewIdent("bklvRange"), Args: []ast.Expr{x.X}}
 				}
@@ -361,6 +404,8 @@ func main() {
 	writeIfChanged(filepath.Join(out, "overlay.json"), ov)
 	sort.Strings(rangeSites)
 	sort.Strings(sharedSites)
+	sort.Strings(keySites)
+	report["maps_keys_sites"] = keySites
 	report["range_sites"] = rangeSites
 	report["shared_sites"] = sharedSites
 	report["globals"] = gl
@@ -369,6 +414,36 @@ func main() {
 	rb, _ := json.MarshalIndent(report, "", " ")
 	writeIfChanged(filepath.Join(out, "report.json"), rb)
 	fmt.Printf("vinstr: %d files, %d map-range sites, %d tick sites, %d mutable globals %v, %d shared-access sites\n", len(files), len(rangeSites), ticks, len(ml), ml, len(sharedSites))
+}
+
+// isMapType: a map type, or a type parameter whose constraint has a map core type (~map[K]V).
+func isMapType(t types.Type) bool {
+	if _, ok := t.Underlying().(*types.Map); ok {
+		return true
+	}
+	tp, ok := t.(*types.TypeParam)
+	if !ok {
+		return false
+	}
+	iface, ok := tp.Constraint().Underlying().(*types.Interface)
+	if !ok {
+		return false
+	}
+	for i := 0; i < iface.NumEmbeddeds(); i++ {
+		switch e := iface.EmbeddedType(i).(type) {
+		case *types.Union:
+			if e.Len() == 1 {
+				if _, ok := e.Term(0).Type().Underlying().(*types.Map); ok {
+					return true
+				}
+			}
+		default:
+			if _, ok := e.Underlying().(*types.Map); ok {
+				return true
+			}
+		}
+	}
+	return false
 }
 
 func isNilNode(n ast.Node) bool {
@@ -427,10 +502,50 @@ func bklvShared(name string) {
 	}
 }
 
-// bklvRange iterates a map. Under an explorer every order permitted by the Go
+func bklvKeys[M ~map[K]V, K comparable, V any](m M) iter.Seq[K] {
+	return func(yield func(K) bool) {
+		for k := range bklvIter(m, "keys") {
+			if !yield(k) {
+				return
+			}
+		}
+	}
+}
+
+func bklvValues[M ~map[K]V, K comparable, V any](m M) iter.Seq[V] {
+	return func(yield func(V) bool) {
+		for _, v := range bklvIter(m, "keys") {
+			if !yield(v) {
+				return
+			}
+		}
+	}
+}
+
+func bklvAll[M ~map[K]V, K comparable, V any](m M) iter.Seq2[K, V] { return bklvIter(m, "keys") }
+
+func bklvKeysSlice[M ~map[K]V, K comparable, V any](m M) []K {
+	r := make([]K, 0, len(m))
+	for k := range bklvIter(m, "keys") {
+		r = append(r, k)
+	}
+	return r
+}
+
+func bklvValuesSlice[M ~map[K]V, K comparable, V any](m M) []V {
+	r := make([]V, 0, len(m))
+	for _, v := range bklvIter(m, "keys") {
+		r = append(r, v)
+	}
+	return r
+}
+
+func bklvRange[M ~map[K]V, K comparable, V any](m M) iter.Seq2[K, V] { return bklvIter(m, "range") }
+
+// bklvIter iterates a map. Under an explorer every order permitted by the Go
 // specification can be chosen: the next key is any key currently in the map
 // and not yet produced; keys inserted during the loop may also be skipped.
-func bklvRange[M ~map[K]V, K comparable, V any](m M) iter.Seq2[K, V] {
+func bklvIter[M ~map[K]V, K comparable, V any](m M, site string) iter.Seq2[K, V] {
 	return func(yield func(K, V) bool) {
 		if BklvChoose == nil {
 			for k, v := range m {
@@ -466,7 +581,7 @@ func bklvRange[M ~map[K]V, K comparable, V any](m M) iter.Seq2[K, V] {
 			}
 			i := 0
 			if n > 1 {
-				i = BklvChoose("range", n)
+				i = BklvChoose(site, n)
 			}
 			if i >= len(cand) {
 				return
